@@ -95,9 +95,9 @@ fn expected(s: &str) -> Result<En, %s> {
 }
 fn main() {
     let s: &str = %s;
-    let c0 = PERR_CALLS.load(core::sync::atomic::Ordering::Relaxed);
+    let c0 = perr_calls();
     let got = En::from_str(s);
-    let calls = PERR_CALLS.load(core::sync::atomic::Ordering::Relaxed) - c0;
+    let calls = perr_calls() - c0;
     let want_calls = if got.is_err() && %s { 1 } else { 0 };
     let got2 = En::try_from(s);
     let exp = expected(s);
